@@ -57,7 +57,7 @@ def _limits(cpu_s, mem_gb=8):
     return f
 
 
-def run_batch(binary, cases, cpu_per_case=20, wall_timeout=None, args=None, env=None):
+def run_batch(binary, cases, cpu_per_case=20, wall_timeout=None, args=None, env=None, limits=True):
     """cases: list of dicts with "id". Returns {id: result dict}. A case whose process died gets
     {"outcome": "killed", "signal": .., "cpu_limit": bool}; cases after it are re-run in a fresh process."""
     results = {}
@@ -68,7 +68,7 @@ def run_batch(binary, cases, cpu_per_case=20, wall_timeout=None, args=None, env=
         t0 = time.time()
         try:
             p = subprocess.run([binary] + (args or []), input=inp.encode("utf-8"), stdout=subprocess.PIPE,
-                               stderr=subprocess.PIPE, preexec_fn=_limits(cpu), env=env,
+                               stderr=subprocess.PIPE, preexec_fn=_limits(cpu) if limits else None, env=env,
                                timeout=wall_timeout or (600 + 2 * len(pending)))
             out, rc, timed_out = p.stdout, p.returncode, False
             err = p.stderr
